@@ -181,6 +181,11 @@ def run_batch(run_seed, base_seed: int, n_runs: int | None, budget_s: float, wor
                     for op_ in ops_:
                         if op_ not in d_ or sub_idx < d_[op_][0]:
                             d_[op_] = (sub_idx, r["seed"])
+                        # up to three programs per (site, operation), earliest submitted first
+                        l_ = agg.setdefault("site_op_seeds", {}).setdefault((tuple(k), op_), [])
+                        l_.append((sub_idx, r["seed"]))
+                        l_.sort()
+                        del l_[3:]
                 if r.get("cov_new"):
                     agg.setdefault("cov", set()).update(tuple(k) for k in r["cov_new"])
                 if r.get("sched_sig"):
